@@ -844,7 +844,7 @@ has_can_convert = ext_traits::is_detected<traits_can_convert_t, Json, T>;
         static result_type try_as(const allocator_set<Alloc,TempAlloc>& aset, const Json& j)
         {
             std::array<E, N> buff;
-            if (j.size() != N)
+            if (!j.is_array() || j.size() != N)
             {
                 return result_type(jsoncons::unexpect, conv_errc::not_array);
             }
